@@ -102,7 +102,7 @@ fn c12_new_unwrap_limb_zero_panics() {
     must_have_panicked();
 }
 
-//@ prop=C12,C11 tier=quick profile=k64 funcs="Odd::default" bound="Odd<Uint<2>>::default(), Odd<Limb>::default(): the produced value must be odd" expect=finding:odd_default_zero
+//@ prop=C12 tier=quick profile=k64 funcs="Odd::default" bound="Odd<Uint<2>>::default(), Odd<Limb>::default(): the produced value must be odd" expect=finding:odd_default_zero
 #[kani::proof]
 #[kani::unwind(4)]
 fn c12_odd_default() {
